@@ -23,9 +23,12 @@ def replay_rotate():
     return {"reproduced": r is not None, "observed": r}
 
 
-def replay_window(model):
-    r = run_case({"kind": "window", "n": 8, "seed": 2})
-    return {"reproduced": r is not None, "observed": r}
+def replay_window(model, vtype=None):
+    for vt in ([vtype] if vtype is not None else [0, 1, 2]):
+        r = run_case({"kind": "window", "n": 8, "seed": 2, "vtype": vt})
+        if r is not None:
+            return {"reproduced": True, "input": {"kind": "window", "seed": 2, "vtype": vt}, "observed": r}
+    return {"reproduced": False, "observed": None}
 
 
 def replay_symmetrize(n):
@@ -106,6 +109,11 @@ def run_case(c):
     if kind == "window":
         vs_ = tuple(int(v) for v in rng.integers(6, 14, 3)); ss_ = tuple(int(2 * v) for v in rng.integers(1, 5, 3))
         vol = rng.normal(size=vs_)
+        # tomograms and masks are often integer-typed (int16 / uint8 / int8 MRC modes): the fill value is the (non-integer) mean all the same
+        if c.get("vtype", c["seed"] % 3) == 1:
+            vol = rng.integers(-300, 900, size=vs_).astype(np.int16)
+        elif c.get("vtype", c["seed"] % 3) == 2:
+            vol = (rng.random(size=vs_) < 0.4).astype(np.uint8)
         for _ in range(12):
             coord = np.array([rng.integers(-6, vs_[a] + 6) for a in range(3)], dtype=float)
             if rng.random() < 0.3:
@@ -120,7 +128,7 @@ def run_case(c):
                 if np.all(p >= 0) and np.all(p < vs_):
                     exp[s] = vol[tuple(p)]
             if sub.shape != ss_ or not np.allclose(sub, exp):
-                return {"what": "extract_subvolume: window / volume-mean fill", "coord": coord.tolist(), "volume": vs_, "window": ss_}
+                return {"what": "extract_subvolume: window / volume-mean fill", "coord": coord.tolist(), "volume": vs_, "window": ss_, "volume_dtype": str(vol.dtype)}
         return None
     if kind == "pad_crop":
         shp = tuple(int(v) for v in rng.integers(4, 10, 3)); vol = rng.normal(size=shp)
